@@ -153,6 +153,41 @@ def explore(
         stack.extend(reversed(children))
 
 
+# ------------------------------------------------------------------ CPU-time watchdog
+#
+# "never hangs" has to be decided too: a consumer that spins without ever asking the environment
+# again cannot be stopped by the environment.  The watchdog uses ITIMER_VIRTUAL (user CPU time of
+# this process - independent of machine load, so it cannot fire because a neighbour is busy) and
+# raises Hang, a BaseException, inside whatever is running.
+
+class Hang(BaseException):
+    """The code under test did not come back within the CPU budget (or kept calling the environment)."""
+
+
+_installed = False
+
+
+def _on_vtalrm(_sig, _frm):
+    raise Hang("no result within the CPU budget")
+
+
+def arm(cpu_seconds: float) -> None:
+    """(Re)start the watchdog; Hang is raised in the main thread after that much user CPU time."""
+    global _installed
+    import signal
+
+    if not _installed:
+        signal.signal(signal.SIGVTALRM, _on_vtalrm)
+        _installed = True
+    signal.setitimer(signal.ITIMER_VIRTUAL, cpu_seconds)
+
+
+def disarm() -> None:
+    import signal
+
+    signal.setitimer(signal.ITIMER_VIRTUAL, 0)
+
+
 def replay(run: Callable[[Chooser], Any], choices: Sequence[int]) -> tuple[Chooser, Any]:
     """Re-execute one recorded choice sequence without the explorer (trailing defaults optional)."""
     ch = Chooser(tuple(choices))
